@@ -188,6 +188,9 @@ def v_all(x):
 
 def v_isinstance(x, t):
     ts = t if isinstance(t, tuple) else (t,)
+    back = {v_int: int, v_float: float, v_list: list, v_tuple: tuple, v_bool: bool}
+    ts = tuple(back.get(c, c) for c in ts)
+    t = ts
     if isinstance(x, SBool):
         return any(c in (bool, int, object) for c in ts)
     if isinstance(x, SInt):
